@@ -8,7 +8,7 @@ import vlib
 import c20gen
 
 CRATE = os.path.join(vlib.HARNESS, "vh-c20")
-LIB = os.path.join(CRATE, "src", "lib.rs")
+LIB = os.path.join(CRATE, "src", "generated.rs")
 ALLOWED_SCOPED = {"e", "lit", "struct_check", "enum_check", "variant_errors", "variant", "data", "struct_data"}
 MODEL_LOCALS = None
 
@@ -40,7 +40,7 @@ def lines_of(msg):
     out = set()
 
     def walk(sp):
-        if sp.get("file_name", "").endswith("vh-c20/src/lib.rs"):
+        if sp.get("file_name", "").endswith("vh-c20/src/generated.rs"):
             out.add(sp["line_start"])
         exp = sp.get("expansion")
         if exp and exp.get("span"):
